@@ -9,7 +9,7 @@ import math
 import numpy as np
 
 from pbv import gen
-from pbv.core import Violation, require, require_close, subcheck
+from pbv.core import Borderline, Violation, require, require_close, subcheck
 from pbv.oracles import densities as od
 
 SUBCHECKS = []
@@ -492,6 +492,183 @@ def stored_parameters(d, ctx):
     require_close(got, fresh, 'log_pdf-is-not-evaluated-at-the-stored-parameters',
                   rtol=1e-12, atol=1e-12, what=f'{which} ({how})', which=which)
     ctx.nontrivial(True)
+
+
+# ------------------------------------------- evaluation points in single precision
+
+@subcheck(SUBCHECKS, 'single_precision_points', quick=1000, thorough=8000)
+def single_precision_points(d, ctx):
+    """"all evaluation points": points stored as float32 / complex64 (what an
+    STFT in single precision delivers) with the parameters in double precision
+    as usual.  The reference is the density at exactly the stored points
+    (converted to double without loss); the tolerance is the first-order effect
+    of rounding the point - or its normalised version - to single precision,
+    computed per point from the gradient of the log density, so that a
+    library that does some of its arithmetic in the precision of the points is
+    still judged right."""
+    import pb_bss.distribution as dist
+    from pb_bss.distribution.complex_bingham import ComplexBingham
+    which = d.choice(['gaussian', 'diagonal', 'spherical', 'ccsg', 'vmf', 'watson',
+                      'bingham', 'cacg', 'cacg', 'cacg'])
+    D = d.int(2, 6)
+    N = d.int(1, 6)
+    lead = tuple(d.int(1, 3) for _ in range(d.int(0, 1)))
+    cond = d.log10(0, 8)
+    rng = d.rng()
+    n = int(np.prod(lead, dtype=int))
+    real = which in ('gaussian', 'diagonal', 'spherical', 'vmf')
+    e32 = 16 * float(np.finfo(np.float32).eps)
+    y = rng.normal(size=(*lead, N, D)) if real else gen.cnormal(rng, (*lead, N, D))
+    ctx.describe(which=which, D=D, N=N, lead=lead, cond=cond)
+    ctx.label(which, f'D={D}', f'lead={len(lead)}')
+
+    def single(a):
+        return a.astype(np.float32 if real else np.complex64)
+
+    if which in ('gaussian', 'diagonal', 'spherical', 'ccsg'):
+        scale = 10 ** rng.uniform(-2, 2)
+        if which == 'gaussian':
+            cov = gen.spd(rng, D, cond, scale, lead)
+        elif which == 'ccsg':
+            cov = gen.hpd(rng, D, cond, scale, lead)
+        elif which == 'diagonal':
+            cov = scale * cond ** rng.uniform(-0.5, 0.5, size=(*lead, D))
+        else:
+            cov = np.asarray(scale * cond ** rng.uniform(-0.5, 0.5, size=lead))
+        mean = None if which == 'ccsg' else rng.normal(size=(*lead, D)) * np.sqrt(scale)
+        full = cov if which in ('gaussian', 'ccsg') else (
+            cov[..., None] * np.eye(D) if which == 'diagonal'
+            else cov[..., None, None] * np.eye(D))
+        chol = np.linalg.cholesky(full)
+        y = np.einsum('...de,...ne->...nd', chol, y) * rng.choice([0.3, 3.0], size=(*lead, N, 1))
+        if mean is not None:
+            y = y + mean[..., None, :]
+        y = single(y)
+        ctx.keep(mean=mean, covariance=cov, y=y)
+        cls = {'gaussian': dist.Gaussian, 'diagonal': dist.DiagonalGaussian,
+               'spherical': dist.SphericalGaussian,
+               'ccsg': dist.ComplexCircularSymmetricGaussian}[which]
+        kw = dict(covariance=cov) if which == 'ccsg' else dict(mean=mean, covariance=cov)
+        model = ctx.lib(cls, **kw)
+        got = np.asarray(ctx.lib(model.log_pdf, y))
+        require(got.shape == (*lead, N), 'shape', f'{got.shape}', which=which)
+        for idx in np.ndindex(*lead):
+            y64 = y[idx].astype(np.float64 if real else np.complex128)
+            m = np.zeros(D) if mean is None else mean[idx]
+            if which == 'ccsg':
+                ref = od.complex_gaussian_logpdf(y64, full[idx])
+            else:
+                ref = od.gaussian_logpdf(y64, m, full[idx])
+            P = np.linalg.inv(full[idx])
+            grad = np.linalg.norm((y64 - m) @ P.T, axis=-1) * (2 if which == 'ccsg' else 1)
+            ynorm = np.linalg.norm(y64, axis=-1) + np.linalg.norm(m)
+            pn = float(np.linalg.norm(P, 2))
+            tol = (1e-9 + 1e-11 * cond * (1 + np.abs(ref))
+                   + e32 * ynorm * grad + (e32 * ynorm) ** 2 * pn + e32 * np.abs(ref) * 0.25)
+            bad = np.abs(got[idx] - ref) > tol
+            require(not bad.any(), 'single-precision-points-logpdf',
+                    f'{which} D={D} cond={cond:.1e} idx={idx}: |diff| '
+                    f'{np.abs(got[idx] - ref)[bad].max() if bad.any() else 0:.3e} '
+                    f'tol {tol[bad].max() if bad.any() else 0:.3e}', which=which)
+        ctx.nontrivial(cond >= 10)
+        return
+
+    if which in ('vmf', 'watson'):
+        kappa = np.asarray(10 ** rng.uniform(-6, math.log10(500), size=lead))
+        mu = gen.unit(rng.normal(size=(*lead, D)) if real else gen.cnormal(rng, (*lead, D)))
+        close_ = rng.uniform(size=(*lead, N, 1)) < 0.4
+        y = np.where(close_, mu[..., None, :] + 0.05 * y, y)
+        if which == 'vmf':
+            y = y * 10 ** rng.uniform(-3, 3, size=(*lead, N, 1))
+        else:
+            y = gen.unit(y)
+        y = single(y)
+        ctx.keep(mean=mu, kappa=kappa, y=y)
+        if which == 'vmf':
+            model = ctx.lib(dist.VonMisesFisher, mean=mu, concentration=kappa)
+        else:
+            model = ctx.lib(dist.ComplexWatson, mode=mu, concentration=kappa)
+        got = np.asarray(ctx.lib(model.log_pdf, y))
+        require(got.shape == (*lead, N), 'shape', f'{got.shape}', which=which)
+        for idx in np.ndindex(*lead):
+            k = float(kappa[idx])
+            y64 = y[idx].astype(np.float64 if real else np.complex128)
+            if which == 'vmf':
+                ref = od.vmf_logpdf_scipy(y64, mu[idx], k)
+                ln = od.vmf_log_norm_quadrature(D, k)
+            else:
+                # the stored points are unit vectors up to single precision
+                ref = od.watson_logpdf(gen.unit(y64), mu[idx], k)
+                ln = od.watson_log_norm(D, k)
+            tol = 1e-9 * (1 + k + abs(ln)) + 4 * e32 * k + 0.25 * e32 * np.abs(ref)
+            require_close(got[idx], ref, 'single-precision-points-logpdf', atol=float(np.max(tol)),
+                          what=f'{which} D={D} kappa={k:.3e} idx={idx}', which=which)
+        ctx.nontrivial(float(np.max(kappa)) >= 1e-3)
+        return
+
+    V = np.stack([gen.haar_unitary(rng, D) for _ in range(n)]).reshape(*lead, D, D)
+    if which == 'bingham':
+        lam = np.empty((*lead, D))
+        for idx in np.ndindex(*lead):
+            lam[idx] = _bingham_eigenvalues(d, rng, D)[0]
+        y = single(gen.unit(y))
+        ctx.keep(eigenvectors=V, eigenvalues=lam, y=y)
+        model = ctx.lib(ComplexBingham, covariance_eigenvectors=V,
+                        covariance_eigenvalues=lam.copy())
+        got = np.asarray(ctx.lib(model.log_pdf, y))
+        require(got.shape == (*lead, N), 'shape', f'{got.shape}', which=which)
+        for idx in np.ndindex(*lead):
+            y64 = y[idx].astype(np.complex128)
+            ref = od.bingham_logpdf(y64, V[idx], lam[idx])
+            cnum = _bingham_cancellation(lam[idx])
+            lmax = float(np.max(np.abs(lam[idx])))
+            tol = (1e-9 * (1 + lmax + float(np.max(np.abs(ref)))) + 1e-13 * cnum
+                   + 4 * e32 * lmax + 0.25 * e32 * float(np.max(np.abs(ref))))
+            if cnum > 1e4:
+                ctx.label('ill-conditioned-sum')
+                continue        # the normaliser's own cancellation: judged in `bingham`
+            require_close(got[idx], ref, 'single-precision-points-logpdf', atol=tol,
+                          what=f'bingham D={D} eigenvalues={lam[idx].tolist()}', which=which)
+        ctx.nontrivial(True)
+        return
+
+    # cACG: the condition number is drawn towards the upper end of the domain
+    if d.aux(71).integers(0, 2) == 0:
+        cond = 10 ** d.aux(72).uniform(6, 8)
+    lam = np.empty((*lead, D))
+    for idx in np.ndindex(*lead):
+        lam[idx] = rng.permutation(gen.spectrum(rng, D, cond)) * 10 ** rng.uniform(-3, 3)
+    B = np.einsum('...wx,...x,...zx->...wz', V, lam, V.conj())
+    for idx in np.ndindex(*lead):
+        top = V[idx][:, int(np.argmax(lam[idx]))]
+        y[idx][0] = top + 0.05 * y[idx][0]
+    y = single(y * 10 ** rng.uniform(-3, 3, size=(*lead, N, 1)))
+    ctx.describe(cond=cond)
+    ctx.keep(covariance=B, y=y)
+    model = ctx.lib(dist.ComplexAngularCentralGaussian,
+                    covariance_eigenvectors=V, covariance_eigenvalues=lam)
+    got = np.asarray(ctx.lib(model.log_pdf, y))
+    require(got.shape == (*lead, N), 'shape', f'{got.shape}', which=which)
+    for idx in np.ndindex(*lead):
+        zn = gen.unit(y[idx].astype(np.complex128))
+        c = zn @ V[idx].conj()              # coordinates in the eigenbasis
+        q = np.sum(np.abs(c) ** 2 / lam[idx], axis=-1)
+        ref = -D * np.log(q) - float(np.sum(np.log(lam[idx])))
+        ref2 = od.cacg_logpdf(zn, B[idx])
+        lmin = float(np.min(lam[idx]))
+        # |dq| <= 2 sqrt(q) e / sqrt(lmin) + e^2 / lmin for a perturbation of norm e
+        rel = 2 * e32 / np.sqrt(q * lmin) + e32 ** 2 / (q * lmin)
+        tol = 1e-9 + 1e-11 * cond * (1 + np.abs(ref)) + D * rel * 2 + 0.25 * e32 * np.abs(ref)
+        if not np.all(np.abs(ref - ref2) <= tol):
+            ctx.label('references-disagree')
+            continue
+        bad = np.abs(got[idx] - ref) > tol
+        require(not bad.any(), 'single-precision-points-logpdf',
+                f'cacg D={D} cond={cond:.1e} idx={idx}: |diff| '
+                f'{np.abs(got[idx] - ref)[bad].max() if bad.any() else 0:.3e} '
+                f'tol {tol[bad].max() if bad.any() else 0:.3e}', which=which)
+    ctx.nontrivial(cond >= 10)
+    ctx.label('cond>=1e7' if cond >= 1e7 else 'cond<1e7')
 
 
 def _sphere_grid(ns=48, nphi=48):
